@@ -35,12 +35,15 @@ struct LAtom
 struct DAtom
 {
   size_t from, to;
-  Q d; // to - from <= d
+  Q d;       // to - from <= d
+  int e = 0; // rdl only: infinitesimal part of the bound, to - from <= d + e*eps (e = -1 is the strict to - from < d)
 };
 struct OVar
 {
   unsigned dom;      // bitmask over the value universe
   bool lazy = false; // created with enforce_exct_one = false (the planner's variant: exclusion is left to the caller)
+  int parent = -1;   // >= 0: derived variable, created with new_var(lits, vals) from the value literals of that variable
+  std::vector<int> map; // derived: the value taken for each value of the parent's domain (ascending), injective
 };
 struct Spec
 {
@@ -105,13 +108,21 @@ static std::string spec_txt(const Spec &s)
   {
     t += " rdl=" + std::to_string(s.nrdl);
     for (auto &a : s.ra)
-      t += " ra:" + std::to_string(a.from) + ">" + std::to_string(a.to) + ":" + qtxt(a.d);
+      t += " ra:" + std::to_string(a.from) + ">" + std::to_string(a.to) + ":" + qtxt(a.d) + (a.e ? "~" + std::to_string(a.e) : "");
   }
   if (!s.ov.empty())
   {
     t += " nval=" + std::to_string(s.nval);
     for (auto &v : s.ov)
+    {
       t += " ov:" + std::to_string(v.dom) + (v.lazy ? "n" : "");
+      if (v.parent >= 0)
+      {
+        t += "<" + std::to_string(v.parent) + ":";
+        for (size_t mi = 0; mi < v.map.size(); ++mi)
+          t += (mi ? "," : "") + std::to_string(v.map[mi]);
+      }
+    }
     for (size_t i = 0; i < s.oe.size(); ++i)
       t += " oe:" + std::to_string(s.oe[i].first) + "," + std::to_string(s.oe[i].second) + (i < s.oe_after.size() && s.oe_after[i] ? "@" + std::to_string(s.oe_after[i]) : "");
   }
@@ -209,11 +220,29 @@ static void parse_case(const std::string &txt, Spec &s, std::vector<Op> &h)
         size_t p1 = tok.find('>'), p2 = tok.find(':', p1);
         a.from = std::atoi(tok.substr(3, p1 - 3).c_str());
         a.to = std::atoi(tok.substr(p1 + 1, p2 - p1 - 1).c_str());
-        a.d = parse_q(tok.substr(p2 + 1));
+        {
+          std::string ds = tok.substr(p2 + 1);
+          size_t te = ds.find('~');
+          a.d = parse_q(ds.substr(0, te));
+          a.e = te == std::string::npos ? 0 : std::atoi(ds.c_str() + te + 1);
+        }
         (tok[0] == 'i' ? s.ia : s.ra).push_back(a);
       }
       else if (tok.rfind("ov:", 0) == 0)
-        s.ov.push_back(OVar{(unsigned)std::atoi(tok.c_str() + 3), tok.back() == 'n'});
+      {
+        OVar o;
+        o.dom = (unsigned)std::atoi(tok.c_str() + 3);
+        size_t lt = tok.find('<');
+        o.lazy = lt == std::string::npos && tok.back() == 'n';
+        if (lt != std::string::npos)
+        {
+          size_t cl = tok.find(':', lt);
+          o.parent = std::atoi(tok.c_str() + lt + 1);
+          for (auto x : parse_slots(tok.substr(cl + 1)))
+            o.map.push_back(x);
+        }
+        s.ov.push_back(o);
+      }
       else if (tok.rfind("oe:", 0) == 0)
       {
         std::string body = tok.substr(3);
@@ -373,7 +402,7 @@ static void build(Net &n, const Spec &s, bool initial_propagate = true)
       n.rdl_vars.push_back(n.rdl->new_var());
     n.ra_slot0 = (int)n.slot.size();
     for (auto &a : s.ra)
-      n.slot.push_back(n.rdl->new_distance(n.rdl_vars[a.from], n.rdl_vars[a.to], inf_rational(mk_rat(a.d))));
+      n.slot.push_back(n.rdl->new_distance(n.rdl_vars[a.from], n.rdl_vars[a.to], inf_rational(mk_rat(a.d), rational((I)a.e))));
   }
   if (!s.ov.empty())
   {
@@ -386,7 +415,22 @@ static void build(Net &n, const Spec &s, bool initial_propagate = true)
       for (int v = 0; v < s.nval; ++v)
         if (o.dom & (1u << v))
           items.push_back(n.vals[v].get());
-      var ov = o.lazy ? n.ov->new_var(items, false) : n.ov->new_var(items);
+      var ov;
+      if (o.parent >= 0)
+      { // the value literals of the parent control the values of the derived variable (as var_item::get does for fields)
+        std::vector<lit> dl;
+        std::vector<var_value *> dv;
+        size_t mi = 0;
+        for (int v = 0; v < s.nval; ++v)
+          if (s.ov[o.parent].dom & (1u << v))
+          {
+            dl.push_back(n.ov->allows(n.ov_vars[o.parent], *n.vals[v]));
+            dv.push_back(n.vals[o.map[mi++]].get());
+          }
+        ov = n.ov->new_var(dl, dv);
+      }
+      else
+        ov = o.lazy ? n.ov->new_var(items, false) : n.ov->new_var(items);
       n.ov_vars.push_back(ov);
       std::vector<int> sl(s.nval, 0);
       for (int v = 0; v < s.nval; ++v)
@@ -458,9 +502,9 @@ static fm::Row la_row(const LAtom &a, bool positive)
 static fw::Edge d_edge(const DAtom &a, bool positive, bool integer)
 {
   if (positive)
-    return fw::Edge{a.from, a.to, Qe(a.d)};
-  // !(to - from <= d)  =  from - to < -d  : integers  <= -d-1 ; reals <= -d - eps
-  return integer ? fw::Edge{a.to, a.from, Qe(-a.d - Q(1))} : fw::Edge{a.to, a.from, Qe(-a.d, Q(-1))};
+    return fw::Edge{a.from, a.to, Qe(a.d, Q(a.e))};
+  // !(to - from <= d + e*eps)  =  from - to < -d - e*eps  : integers  <= -d-1 ; reals <= -d - (e+1)*eps
+  return integer ? fw::Edge{a.to, a.from, Qe(-a.d - Q(1))} : fw::Edge{a.to, a.from, Qe(-a.d, Q(-a.e - 1))};
 }
 
 static TT atoms_tt(int k, size_t na, const std::function<bool(unsigned)> &feasible, const std::function<lit(size_t)> &lit_of)
@@ -702,9 +746,9 @@ static void oracle_dl_one(const Ctx &c, const Net &n, const std::vector<Op> &h, 
     if (n.sat.value(l) != Undefined)
       continue;
     const DAtom &a = atoms[i];
-    bool ent_true = cl.d[a.from][a.to] <= Qe(a.d);
+    bool ent_true = cl.d[a.from][a.to] <= Qe(a.d, Q(a.e));
     Qe back = cl.d[a.to][a.from];
-    bool ent_false = !back.r.is_inf() && (back + Qe(a.d)) < Qe(Q(0));
+    bool ent_false = !back.r.is_inf() && (back + Qe(a.d, Q(a.e))) < Qe(Q(0));
     if (ent_true || ent_false)
     {
       report(c, h, std::string("C10:") + nm + ":decided-atom-not-propagated", "atom " + std::to_string(i) + " (to-from<=" + qtxt(a.d) + ") is " + (ent_true ? "entailed" : "refuted") + " by the distances but still undefined");
@@ -1032,6 +1076,7 @@ static void run_history(const Ctx &c, const std::vector<Op> &h, RunOut &out, boo
     }
     if (last)
       g_tlog = &tlog;
+    std::vector<lit> decisions_before = n.sat.decisions;
     bool ret = apply_op(n, o);
     g_tlog = nullptr;
     last_ret = ret;
@@ -1040,6 +1085,20 @@ static void run_history(const Ctx &c, const std::vector<Op> &h, RunOut &out, boo
     if (!last)
       continue;
     // ---------------- oracles on the last step ----------------
+    if ((g_oracles & O_ENTAIL) && o.kind == 'k' && !n.sat.inconsistent)
+    { // check() is a query: it must not leave any of its own assumptions standing. The decisions afterwards have to be a
+      // prefix of the caller's (a learnt unit clause legitimately backjumps below the caller's level and drops decisions)
+      bool same = n.sat.decisions.size() <= decisions_before.size();
+      for (size_t di = 0; same && di < n.sat.decisions.size(); ++di)
+        same = n.sat.decisions[di] == decisions_before[di];
+      if (!same)
+      {
+        std::string ds;
+        for (auto &l : n.sat.decisions)
+          ds += nr::ls(l) + " ";
+        report(c, h, "C07:check-left-decisions-standing", "check() returned " + std::string(ret ? "true" : "false") + " and left the decisions [ " + ds + "] standing; the caller had " + std::to_string(decisions_before.size()) + " decision(s)");
+      }
+    }
     if (g_oracles & O_ENTAIL)
     {
       if (!ret)
@@ -1594,6 +1653,36 @@ static void families(const std::string &prop, const std::string &tier)
         g_specs.push_back(r);
       }
     }
+    // (S) strict bounds (rdl only): ALL 3-subsets of {to - from <= d, to - from < d} over 3 points, d in {0, 1}: bounds
+    // with an infinitesimal part, asserted and negated (the negation of a strict bound is a non-strict one)
+    {
+      std::vector<DAtom> sp;
+      for (size_t a = 1; a <= 3; ++a)
+        for (size_t b = 1; b <= 3; ++b)
+          if (a != b)
+            for (auto d : {Q(0), Q(1)})
+              for (int e : {0, -1})
+              {
+                DAtom x{a, b, d};
+                x.e = e;
+                sp.push_back(x);
+              }
+      subsets(sp.size(), 3, [&](const std::vector<size_t> &idx)
+              {
+                if (idx.size() != 3)
+                  return;
+                bool strict = false;
+                for (auto i : idx)
+                  strict = strict || sp[i].e != 0;
+                if (!strict)
+                  return; // covered by the main family
+                Spec r;
+                r.nrdl = 3;
+                for (auto i : idx)
+                  r.ra.push_back(sp[i]);
+                r.depth = th ? 4 : 3;
+                g_specs.push_back(r); });
+    }
     // (C) chains over all 4 points: for EVERY ordering p0..p3 of the points the three unit edges p0->p1->p2->p3 and one
     // shortcut atom between the end points (implied, just not implied, or contradicting the chain): the incremental
     // update has to splice a new edge in front of / behind a path of several edges, and explanations walk that path
@@ -1740,6 +1829,28 @@ static void families(const std::string &prop, const std::string &tier)
         t.oe = {{1, 0}, {0, 1}};
         g_specs.push_back(t);
       }
+    // derived variables (two fields read through one object variable): a parent over two values and two variables created
+    // with new_var(lits, vals) from the parent's value literals, for EVERY pair of injective value maps into the universe;
+    // their equality is requested, so values controlled by one and the same literal occur
+    for (int a0 = 0; a0 < 3; ++a0)
+      for (int a1 = 0; a1 < 3; ++a1)
+        for (int b0 = 0; b0 < 3; ++b0)
+          for (int b1 = 0; b1 < 3; ++b1)
+          {
+            if (a0 == a1 || b0 == b1)
+              continue;
+            Spec s;
+            s.nval = 3;
+            OVar par{3u};
+            OVar q1{(1u << a0) | (1u << a1)}, q2{(1u << b0) | (1u << b1)};
+            q1.parent = q2.parent = 0;
+            q1.map = {a0, a1};
+            q2.map = {b0, b1};
+            s.ov = {par, q1, q2};
+            s.oe = {{1, 2}};
+            s.depth = th ? 4 : 3;
+            g_specs.push_back(s);
+          }
     // lazy variables (enforce_exct_one = false, as the planner creates enum variables): EVERY pair of domains, with and
     // without an equality request; the reported domain must be exactly the values whose literal is not false, whatever
     // combination of value literals the history makes true
